@@ -164,7 +164,7 @@ func clex(src string) ([]ctok, error) {
 	return out, nil
 }
 
-var cBuiltinType = regexp.MustCompile(`^(metal::)?((packed_)?(bool|int|uint|float|half|double|long|ulong|short|ushort|char|uchar|int64_t|uint64_t|float16_t)([2-4](x[2-4])?)?|void|[biud]?vec[2-4]|d?mat[2-4](x[2-4])?|atomic_int|atomic_uint|ByteAddressBuffer|RWByteAddressBuffer|size_t)$`)
+var cBuiltinType = regexp.MustCompile(`^(metal::)?((packed_)?(bool|int|uint|float|half|double|long|ulong|short|ushort|char|uchar|int64_t|uint64_t|float16_t)([2-4](x[2-4])?)?|void|[biud]?vec[2-4]|d?mat[2-4](x[2-4])?|atomic_int|atomic_uint|ByteAddressBuffer|RWByteAddressBuffer|size_t|auto)$`)
 
 // qualifier words per dialect (a word that qualifies declarations in one language is an ordinary identifier in another)
 var cQualsBy = map[string]map[string]bool{
